@@ -162,10 +162,19 @@ func (f *FeedbackAdapter) OnTransportCCFeedback(
 	index := feedback.BaseSequenceNumber
 	refTime := time.Time{}.Add(time.Duration(feedback.ReferenceTime) * 64 * time.Millisecond)
 	recvDeltas := feedback.RecvDeltas
+	remaining := int(feedback.PacketStatusCount)
 
 	for _, chunk := range feedback.PacketChunks {
 		switch chunk := chunk.(type) {
 		case *rtcp.RunLengthChunk:
+			// The run length of the last chunk may exceed what is left of the
+			// packet status count. The surplus describes no packet and has no
+			// deltas, so it must not be unpacked.
+			if int(chunk.RunLength) > remaining {
+				capped := *chunk
+				capped.RunLength = uint16(remaining) //nolint:gosec // G115
+				chunk = &capped
+			}
 			n, nextRefTime, acks, err := f.unpackRunLengthChunk(index, refTime, chunk, recvDeltas)
 			if err != nil {
 				return nil, err
@@ -174,6 +183,7 @@ func (f *FeedbackAdapter) OnTransportCCFeedback(
 			result = append(result, acks...)
 			recvDeltas = recvDeltas[n:]
 			index = uint16(int(index) + len(acks)) //nolint:gosec // G115
+			remaining -= len(acks)
 		case *rtcp.StatusVectorChunk:
 			n, nextRefTime, acks, err := f.unpackStatusVectorChunk(index, refTime, chunk, recvDeltas)
 			if err != nil {
@@ -183,6 +193,7 @@ func (f *FeedbackAdapter) OnTransportCCFeedback(
 			result = append(result, acks...)
 			recvDeltas = recvDeltas[n:]
 			index = uint16(int(index) + len(acks)) //nolint:gosec // G115
+			remaining = max(remaining-len(acks), 0)
 		default:
 			return nil, errInvalidFeedback
 		}
